@@ -69,7 +69,9 @@ def check_container_value(c, where):
         bad = ('nonfinite_volume', None, v)
     elif v < -(K * q):
         bad = ('negative_volume', None, v)
-    elif v > c.max_volume * (1 + 1e-9) + K * q:
+    elif v > c.max_volume * (1 + 1e-9) + K * q * (len(c.contents) + 2) * (1 + sum(abs(vol_per_stored(s)) for s in c.contents)):
+        # (one storage quantum of an amount is up to 1e-7 uL of volume - an enzyme at 1 U/mL: a volume recomputed from the
+        #  rounded amounts may exceed a capacity it was within by that much)
         bad = ('volume_over_capacity', None, (v, c.max_volume))
     if bad:
         M.violate('C03', 'SANE', f'C03:impossible_state:{bad[0]}:{where}',
